@@ -580,9 +580,11 @@ Proof.
     match goal with |- G e (let '(isr, e1) := ?X in _) => assert (HX : G e (snd X)); [|destruct X as [isr e1]] end.
     { destruct (kind e0 i).
       - destruct (is (st e0 i) SRunning) eqn:ER; simpl; [|exact G0].
+        destruct (forallb _ _); simpl; [|exact G0].
         apply is_eq in ER. eapply G_trans; [exact G0|]. apply G_set_state; [apply G0|]. rewrite ER; reflexivity.
       - destruct (is (st e0 i) SRunning) eqn:ER; simpl.
-        + apply is_eq in ER. eapply G_trans; [exact G0|]. apply G_set_state; [apply G0|]. rewrite ER; reflexivity.
+        + destruct (forallb _ _); simpl; [|exact G0].
+          apply is_eq in ER. eapply G_trans; [exact G0|]. apply G_set_state; [apply G0|]. rewrite ER; reflexivity.
         + destruct (is (st e0 i) SSkipped); exact G0.
       - (* step *)
         destruct (is (st e0 i) SRunning) eqn:ER; simpl.
